@@ -21,6 +21,12 @@ func (d *VMDictValue) Range(callback func(key string, value *VMValue) bool) {
 	}
 }
 
+func (d *VMDictValue) RangeSorted(callback func(key string, value *VMValue) bool) {
+	if dd, ok := d.V().ReadDictData(); ok {
+		dd.Dict.RangeSorted(callback)
+	}
+}
+
 // Load value为变量的值，ok代表是否找到变量
 func (d *VMDictValue) Load(key string) (value *VMValue, ok bool) {
 	if dd, ok := d.V().ReadDictData(); ok {
